@@ -29,6 +29,12 @@ CLAIMS = {
          "failed matching runs nothing further and the connection's Close is deferred first; prefetch reads at most one chunk and only below the limit regardless of the cursor; "
          "the emulated UDP deadline keeps sub-second resolution. Wall-clock bounds themselves are not decided.",
          "DESIGN.md section 4 C05"),
+ "C06": ("error-propagation dataflow over go/ssa on the matcher-reachable call graph, who-may-read rule, typestate, path evaluation of Read in matching mode",
+         "Decided for all matcher-reachable code (about 180 functions from 20 ConnMatcher implementations): only Connection.Read/prefetch read the raw conn; Read never reaches the socket "
+         "while matching; every call that reads from the connection or a reader built on it has its error tested and every return reachable from the error edge returns an error deriving "
+         "from it (need-more is never turned into a definite 'no'; three reviewed trailing-probe exceptions); the MatchingBytes view is read-only and used only where reviewed; matchers do not "
+         "modify the connection and publish memoised state only after their last read; the freeze/unfreeze bracket. Verdict monotonicity per protocol is value-level and not decided.",
+         "DESIGN.md section 4 C06"),
 }
 
 checks = []
